@@ -36,6 +36,9 @@ Variable truthy : val -> bool.
 (* the interrupt poll at the entry of every statement (cmplEvaluateNodeStatement):
    it may advance the state and may raise (an injected host panic) *)
 Variable poll : st -> st * option val.
+(* what tryCatchEvaluate turns a caught payload into when it is re-thrown (a host panic
+   becomes an ordinary JavaScript exception once a try statement has recovered it) *)
+Variable recatch : val -> val.
 Notation stmt := (stmt expr).
 Notation oval := (oval val). Notation ores := (ores val).
 Notation compl := (compl val). Notation sres := (sres val).
@@ -95,7 +98,12 @@ End OttoIter.
 Definition ocatch (blk : st -> list label -> list stmt -> st * list label * ores)
            (r1 : st * list label * ores) (c : option (list stmt)) : st * list label * ores :=
   match r1, c with
-  | (s1, L1, OExn _), Some cb => blk s1 L1 cb
+  | (s1, L1, OExn _), Some cb =>
+      match blk s1 L1 cb with
+      | (s2, L2, OExn v) => (s2, L2, OExn (recatch v))    (* the catch block runs under tryCatchEvaluate too *)
+      | r => r
+      end
+  | (s1, L1, OExn v), None => (s1, L1, OExn (recatch v))
   | _, _ => r1
   end.
 Definition ofinally (blk : st -> list label -> list stmt -> st * list label * ores)
@@ -203,7 +211,12 @@ End SpecIter.
 
 Definition scatch (blk : st -> list stmt -> st * sres) (r1 : st * sres) (c : option (list stmt)) : st * sres :=
   match r1, c with
-  | (s1, SDone (CThrow _)), Some cb => blk s1 cb
+  | (s1, SDone (CThrow _)), Some cb =>
+      match blk s1 cb with
+      | (s2, SDone (CThrow v)) => (s2, SDone (CThrow (recatch v)))
+      | r => r
+      end
+  | (s1, SDone (CThrow v)), None => (s1, SDone (CThrow (recatch v)))
   | _, _ => r1
   end.
 Definition sfinally (blk : st -> list stmt -> st * sres) (r2 : st * sres) (f : option (list stmt)) : st * sres :=
